@@ -30,9 +30,15 @@ SRCS = [
 DEFAULTS = {'d': 'dflt', 'dl': [3, 1, 2]}
 
 
-def fresh(j):
+def fresh(j, defaults='std'):
     with NoTracing():
-        t = HTML(SRCS[j], copy.deepcopy(DEFAULTS))
+        if defaults == 'std':
+            d = copy.deepcopy(DEFAULTS)
+        elif defaults == 'empty':
+            d = {}
+        else:
+            d = {'d': 'other', 'dl': [9]}
+        t = HTML(SRCS[j], d)
     return t
 
 
@@ -76,7 +82,10 @@ def render(t, ns):
         return ('exc', type(e).__name__)
 
 
-NOPS = 6
+NOPS = 8
+
+
+CUR = {'defaults': 'std'}
 
 
 def apply_op(op, t, j, nsA, nsB):
@@ -84,11 +93,11 @@ def apply_op(op, t, j, nsA, nsB):
     if op == 0:
         snap = snapshot(nsA)
         r = render(t, nsA)
-        return t, j, same(nsA, snap) and r == render(fresh(j), nsA)
+        return t, j, same(nsA, snap) and r == render(fresh(j, CUR['defaults']), nsA)
     if op == 1:
         snap = snapshot(nsB)
         r = render(t, nsB)
-        return t, j, same(nsB, snap) and r == render(fresh(j), nsB)
+        return t, j, same(nsB, snap) and r == render(fresh(j, CUR['defaults']), nsB)
     if op == 2:
         with NoTracing():
             data = pickle.dumps(t)
@@ -106,9 +115,17 @@ def apply_op(op, t, j, nsA, nsB):
         with NoTracing():
             t.munge(SRCS[1 - j])
         return t, 1 - j, True
+    if op == 5:
+        with NoTracing():
+            t.cook()
+        return t, j, True
+    if op == 6:
+        with NoTracing():
+            t.munge(SRCS[j], {})                 # re-edit with an EMPTY mapping: defaults are cleared
+        return t, j, 'empty'
     with NoTracing():
-        t.cook()
-    return t, j, True
+        t.munge(None, {'d': 'other', 'dl': [9]})     # re-edit the defaults only
+    return t, j, 'other'
 
 
 def run_history(ops, av, uA, uB, rA, dB):
@@ -116,15 +133,19 @@ def run_history(ops, av, uA, uB, rA, dB):
     nsB = make_ns(2, av, uB, not rA, 0, 0, 2, 1, dB)
     j = 0
     t = fresh(j)
+    CUR['defaults'] = 'std'
     gsnap = copy.deepcopy(t.globals)
     for op in ops:
         t, j, ok = apply_op(op, t, j, nsA, nsB)
         if not ok:
             return False
-    # after the history: both namespaces render as on a freshly built template of the current source, twice
+        if ok in ('empty', 'other'):
+            CUR['defaults'] = ok
+            gsnap = copy.deepcopy(fresh(j, ok).globals)
+    # after the history: both namespaces render as on a freshly built template of the current source and defaults, twice
     for ns in (nsA, nsB, nsA):
         snap = snapshot(ns)
-        if render(t, ns) != render(fresh(j), ns) or not same(ns, snap):
+        if render(t, ns) != render(fresh(j, CUR['defaults']), ns) or not same(ns, snap):
             return False
     return t.globals == gsnap and DEFAULTS == {'d': 'dflt', 'dl': [3, 1, 2]}
 
@@ -216,7 +237,7 @@ L = tier(3, 4)
 for _f in range(NOPS):
     OBLIGATIONS.append(Ob('history_L%d_first%d' % (L, _f), make_history(L, _f), PRE, timeout=tier(280, 1500), path_timeout=60,
                           data='data int a (decides sort orders), per-namespace sort key / reverse / comparison-function choices',
-                          selectors='histories of %d operations (render A, render B, pickle, deepcopy, munge, cook), first = %d' % (L, _f),
+                          selectors='histories of %d operations (render A, render B, pickle, deepcopy, munge source, cook, munge with empty defaults, munge defaults only), first = %d' % (L, _f),
                           outside='histories longer than %d; ZODB persistence machinery' % L,
                           stubs='the whole history runs untraced once operations and data choices are fixed on the path (selector-style coverage; string_repeat keeps symbolic data)'))
 OBLIGATIONS.append(Ob('file_history', ob_file_history, ['0 <= o1 < 4', '0 <= o2 < 4', '0 <= o3 < 4'], timeout=tier(200, 900),
